@@ -132,6 +132,14 @@ class C01(vlib.Driver):
             for algo in ("DQN", "DDPG"):       # AgentWrapper.clone (RSNorm supports the off-policy single-agent algorithms)
                 add(algo, "vector", False, "partial", 6, rng.randrange(100), wrapper=True)
             cases += custom_cases([("DQN", "vector"), ("DQN", "image")])
+            # RSNorm over Dict observations (a dict of running statistics); agent ids given in unsorted order
+            cases.append({"algo": "DQN", "family": "dict", "share": False, "netcfg": "partial", "seed": 61, "pop": 2, "wrapper": True,
+                          "ops": [["learn", 0, 744], ["act", 0, 3], ["clone", 0, None], ["act", 0, 536], ["act", 2, 536, 0],
+                                  ["learn", 0, 216], ["learn", 2, 216, 0], ["mutate", 2, "arch", 4], ["clone", 2, 7],
+                                  ["learn", 1, 79], ["learn", 3, 2], ["learn", 0, 5]]})
+            cases.append({"algo": "IPPO", "family": "vector", "share": False, "netcfg": "partial", "seed": 3, "pop": 2, "ids": "rev",
+                          "ops": [["learn", 0, 1], ["clone", 0, None], ["act", 0, 2], ["act", 2, 2, 0], ["learn", 0, 3],
+                                  ["learn", 2, 3, 0], ["mutate", 2, "arch", 4], ["clone", 2, 7], ["learn", 1, 5], ["learn", 3, 6]]})
             # custom encoder (EvolvableResNet): architecture mutations of the encoder, then clones of the mutants
             cases.append({"algo": "DQN", "family": "image", "share": False, "netcfg": "resnet", "seed": 5, "pop": 2,
                           "ops": [["learn", 0, 1]] + [["mutate", 0, "arch", 100 + i] for i in range(6)] +
@@ -140,6 +148,13 @@ class C01(vlib.Driver):
                                  [["clone", 2, 9], ["mutate", 1, "act", 2], ["learn", 1, 3], ["learn", 3, 4], ["learn", 0, 6]]})
         else:
             cases += custom_cases([(a, f) for a, fs in evo.CUSTOM_ALGOS.items() for f in fs])
+            for algo in ("DQN", "CQN", "DDPG", "TD3", "RainbowDQN"):
+                for fam in ("dict", "image"):
+                    add(algo, fam, False, "partial", 6, rng.randrange(1000), nag=2, wrapper=True)
+            for algo in sorted(evo.MULTI):
+                c = {"algo": algo, "family": "vector", "share": False, "netcfg": "partial", "seed": 3, "pop": 2, "ids": "rev",
+                     "ops": history(2, 8, rng)}
+                cases.append(c)
             for algo in evo.RESNET_ALGOS:
                 for share in ([False, True] if algo in evo.SHARE_CAPABLE else [False]):
                     cases.append({"algo": algo, "family": "image", "share": share, "netcfg": "resnet", "seed": 7, "pop": 2,
@@ -167,6 +182,8 @@ class C01(vlib.Driver):
         torch.set_num_threads(1)
         evo.reset_globals()
         spec = {k: case[k] for k in ("algo", "family", "share", "netcfg", "seed")}
+        if case.get("ids"):
+            spec["ids"] = case["ids"]
         # a population is built from ONE user net_config / hp_config, as EvolvableAlgorithm.population does
         shared_cfg = evo.net_config_for(case["netcfg"], case["family"])
         hp = evo.hp_config_for(case["algo"])
@@ -474,7 +491,7 @@ class C01(vlib.Driver):
         return out
 
     def key(self, case):
-        return json.dumps([case["algo"], case["family"], case["share"], case["netcfg"], bool(case.get("wrapper")), bool(case.get("tags")), [o[0] if o[0] != "mutate" else o[0] + ":" + o[2] for o in case["ops"]]])
+        return json.dumps([case["algo"], case["family"], case["share"], case["netcfg"], bool(case.get("wrapper")), bool(case.get("tags")), case.get("ids"), [o[0] if o[0] != "mutate" else o[0] + ":" + o[2] for o in case["ops"]]])
 
     def nontrivial(self, case, obs):
         ops = case["ops"]
